@@ -2,6 +2,7 @@ import TarpcModel.Driver.Show
 import TarpcModel.Monitors.Server
 import TarpcModel.Server.Settle
 import TarpcModel.Monitors.NoPanic
+import TarpcModel.Monitors.EofOnce
 /- Family `srv`: one server connection (Requests stream + executions) over a SimTransport. -/
 namespace TarpcModel.Driver
 open TarpcModel TarpcModel.Server
@@ -63,6 +64,7 @@ structure SrvMon where
   c04 : Server.Mon Unit := { st := () }
   c06 : Server.Mon Unit := { st := () }
   c06s : Server.Mon C06StallSt := { st := {} }
+  c10e : Server.Mon Unit := { st := () }
   c08 : Server.Mon C08St := { st := [] }
   c09 : Server.Mon Server.C09St := { st := none }
   c10 : Server.Mon Nat := { st := 0 }
@@ -77,6 +79,7 @@ structure SrvMon where
 def SrvMon.feed (m : SrvMon) (e : SEv) : SrvMon :=
   { m with c16 := m.c16.orElse (fun _ => match e with | .obs o => panicOf o | _ => none), c04 := Server.Mon.step checkC04 m.c04 e, c06 := Server.Mon.step checkC06 m.c06 e,
            c06s := Server.Mon.step checkC06Stall m.c06s e,
+           c10e := Server.Mon.step Server.checkEofOnce m.c10e e,
            c08 := Server.Mon.step checkC08 m.c08 e, c09 := Server.Mon.step Server.checkC09 m.c09 e,
            c10 := Server.Mon.step Server.checkC10 m.c10 e, c11 := Server.Mon.step Server.checkC11 m.c11 e,
            c12 := Server.Mon.step checkC12 m.c12 e, c14 := Server.Mon.step Server.checkC14 m.c14 e,
@@ -84,7 +87,7 @@ def SrvMon.feed (m : SrvMon) (e : SEv) : SrvMon :=
 
 def SrvMon.verdict (m : SrvMon) : Option String :=
   let fs := [("C04", m.c04.bad), ("C06", m.c06.bad.orElse fun _ => m.c06s.bad), ("C08", m.c08.bad), ("C09", m.c09.bad),
-             ("C10", m.c10.bad), ("C11", m.c11.bad), ("C12", m.c12.bad), ("C14", m.c14.bad), ("C18", m.c18.bad),
+             ("C10", m.c10.bad.orElse fun _ => m.c10e.bad), ("C11", m.c11.bad), ("C12", m.c12.bad), ("C14", m.c14.bad), ("C18", m.c18.bad),
              ("C02", m.c02), ("C16", m.c16), ("PARSE", m.garbled)]
   let bad := fs.filterMap fun (p, b) => b.map fun w => s!"[{p}] {w}"
   if bad.isEmpty then none else some (" ;; ".intercalate bad)
@@ -92,7 +95,7 @@ def SrvMon.verdict (m : SrvMon) : Option String :=
 def srvMonInit (ps : List (String × String)) : SrvMon :=
   let l := srvLimit ps
   let bk : Server.Book := { limit := l }
-  { limit := l, c04 := { st := (), book := bk }, c06 := { st := (), book := bk }, c06s := { st := {}, book := bk },
+  { limit := l, c04 := { st := (), book := bk }, c06 := { st := (), book := bk }, c06s := { st := {}, book := bk }, c10e := { st := (), book := bk },
     c08 := { st := [], book := bk }, c09 := { st := none, book := bk }, c10 := { st := 0, book := bk },
     c11 := { st := (), book := bk }, c12 := { st := false, book := bk }, c14 := { st := {}, book := bk },
     c18 := { st := (), book := bk } }
